@@ -1,0 +1,91 @@
+//go:build verif
+
+/*
+   Copyright The containerd Authors.
+
+   Licensed under the Apache License, Version 2.0 (the "License");
+   you may not use this file except in compliance with the License.
+   You may obtain a copy of the License at
+
+       http://www.apache.org/licenses/LICENSE-2.0
+
+   Unless required by applicable law or agreed to in writing, software
+   distributed under the License is distributed on an "AS IS" BASIS,
+   WITHOUT WARRANTIES OR CONDITIONS OF ANY KIND, either express or implied.
+   See the License for the specific language governing permissions and
+   limitations under the License.
+*/
+
+// Package verifhook provides verification hooks. With the "verif" build tag
+// a test can install handlers; nothing happens unless one is installed.
+package verifhook
+
+import (
+	"bytes"
+	"runtime"
+	"strconv"
+	"sync/atomic"
+)
+
+// Handler receives the hook name and the key/value pairs given at the call site.
+type Handler func(name string, kv ...any)
+
+var (
+	eventH atomic.Pointer[Handler]
+	gateH  atomic.Pointer[Handler]
+	crashH atomic.Pointer[Handler]
+	seq    atomic.Int64
+)
+
+func set(p *atomic.Pointer[Handler], h Handler) {
+	if h == nil {
+		p.Store(nil)
+		return
+	}
+	p.Store(&h)
+}
+
+// SetEvent installs (or with nil removes) the handler of Event.
+func SetEvent(h Handler) { set(&eventH, h) }
+
+// SetGate installs (or with nil removes) the handler of Gate.
+func SetGate(h Handler) { set(&gateH, h) }
+
+// SetCrashPoint installs (or with nil removes) the handler of CrashPoint.
+func SetCrashPoint(h Handler) { set(&crashH, h) }
+
+// Event reports that the named linearization point was passed.
+func Event(name string, kv ...any) {
+	if h := eventH.Load(); h != nil {
+		(*h)(name, kv...)
+	}
+}
+
+// Gate lets an installed scheduler block the caller at the named point.
+func Gate(name string, kv ...any) {
+	if h := gateH.Load(); h != nil {
+		(*h)(name, kv...)
+	}
+}
+
+// CrashPoint marks a point between two durable effects.
+func CrashPoint(name string, kv ...any) {
+	if h := crashH.Load(); h != nil {
+		(*h)(name, kv...)
+	}
+}
+
+// NextSeq returns the next value of a process-wide sequence number.
+func NextSeq() int64 { return seq.Add(1) }
+
+// Goid returns the id of the calling goroutine (test use only).
+func Goid() int64 {
+	var buf [64]byte
+	b := buf[:runtime.Stack(buf[:], false)]
+	b = bytes.TrimPrefix(b, []byte("goroutine "))
+	if i := bytes.IndexByte(b, ' '); i > 0 {
+		b = b[:i]
+	}
+	n, _ := strconv.ParseInt(string(b), 10, 64)
+	return n
+}
